@@ -36,16 +36,30 @@ def gen(rng, tier):
                     s += "+p"
                 if q > 0 and rng.random() < 0.3:
                     s += "~%d" % rng.randrange(q)
+                elif rng.random() < 0.08:
+                    s += "~!"        # linked to services that are never added to the accessory
                 ss.append(s)
             accs.append("%d:%s" % (eid, ",".join(ss)))
+            if rng.random() < 0.15:
+                # RemoveAccessory of an object built earlier: a member, or one that was refused as a duplicate
+                accs.append("-%d" % rng.randrange(len(accs)))
+        if rng.random() < 0.2:
+            # an explicit id used twice (the second is refused), the refused object "removed" as cleanup, the id used again
+            e = rng.choice([7, 2, 50])
+            accs += ["%d:" % e, "%d:" % e, "-%d" % (len(accs) + 1), "%d:" % e, "0:"]
         line = "ids " + ";".join(accs)
         cases.append({"id": "i%d" % i, "line": line, "kind": "compose"})
         cases.append({"id": "i%dr" % i, "line": line, "kind": "rebuild"})
     return cases
 
 
+def same(c, g, m):
+    # "sig=" (type -> id association) is compared between the two builds of a composition, not with the model
+    return " ".join(t for t in g.split(" ") if not t.startswith("sig=")) == m
+
+
 def nontrivial(c):
-    return ";" in c["line"] or "+" in c["line"] or "~" in c["line"] or "^" in c["line"]
+    return ";" in c["line"] or "+" in c["line"] or "~" in c["line"] or "^" in c["line"]     # includes removals
 
 
 def outcome_class(c, obs):
@@ -56,11 +70,24 @@ def oracle(c, obs):
     if obs.startswith("panic") or obs.startswith("DRIVER-DIED") or obs == "NO-OUTPUT" or obs.startswith("unknown"):
         return "harness / constructor failure: " + obs[:100]
     toks = obs.split(" ")
+    specs = c["line"].split(" ", 1)[1].split(";")
     aids = []
     objs = []
+    member = {}                      # index of the constructed object -> its "aid:ids" while it is a member
     for t in toks:
-        m = re.match(r"a\d+=(\d+):(.*)$", t)
+        m = re.match(r"a(\d+)=rm$", t)
         if m:
+            k = int(specs[int(m.group(1))][1:])
+            if k in member:
+                aids.remove(int(member[k].split(":")[0]))
+                objs.remove(member.pop(k))
+            continue
+        m = re.match(r"a(\d+)=(\d+):(.*)$", t)
+        if m:
+            m = re.match(r"a(\d+)=(\d+):(.*)$", t)
+            idx = int(m.group(1))
+            m = re.match(r"a\d+=(\d+):(.*)$", t)
+            member[idx] = "%s:%s" % (m.group(1), m.group(2))
             aids.append(int(m.group(1)))
             ids = [int(x) for x in m.group(2).split(",")]
             objs.append("%s:%s" % (m.group(1), m.group(2)))
@@ -68,6 +95,7 @@ def oracle(c, obs):
                 return "instance ids of accessory %s are not 1..n in construction order (unique, non-zero, order-determined): %s" % (m.group(1), ids[:20])
     if len(set(aids)) != len(aids) or 0 in aids:
         return "accessory ids are not unique and non-zero: %s" % aids
+    toks = [t for t in toks if not t.startswith("sig=")]
     js = [t for t in toks if t.startswith("json=")]
     if not js or js[0][5:] != ";".join(objs):
         return "the ids in the served JSON differ from the ids of the objects"
@@ -78,3 +106,28 @@ def oracle(c, obs):
 
 def classify(c, obs, why):
     return None
+
+
+def run(res, a):
+    import json, sys
+    res.rule = RULE
+    res.assumptions = ASSUMPTIONS
+    core.build_everything(res, ID, extra_files=EXTRA_FILES)
+    mod = sys.modules[__name__]
+    if a.replay:
+        rep = json.load(open(a.replay))
+        cases = [{"id": "replay", "line": rep["case"], "kind": "replay"}, {"id": "replayr", "line": rep["case"], "kind": "rebuild"}]
+    else:
+        cases = core.load_corpus(FAMILY) + gen(core.rng_for(ID, res.seed), a.tier)
+    go, mo = core.run_correspondence(res, FAMILY, cases, mod)
+    # ids depend only on construction order: the same composition built a second time has the same ids
+    byline = {}
+    for c in cases:
+        byline.setdefault(c["line"], []).append(go.get(c["id"], "NO-OUTPUT"))
+    for line, obs in byline.items():
+        if len(set(obs)) > 1:
+            res.violations.append(("unstable", {"property": ID, "family": FAMILY, "seed": res.seed, "case": line,
+                                                "implementation_observed": " | ".join(o[:600] for o in obs[:2]),
+                                                "required": "two builds of the same composition give different ids (ids must depend on construction order only)",
+                                                "failing_input_found": True, "replay": "python3 tools/check.py C14 --replay <this file>"}))
+            break
